@@ -5,6 +5,9 @@
 //! `C14 <op> <T> <args…> => <result>` line per call (see lean/Ark/Model/DrvC14.lean).
 //! Built WITHOUT `--features parallel` the same ops run serially and `T` is only echoed, so the two
 //! builds can be diffed line by line.
+//! Usage: `c14 [quick|thorough] [seed] [group]`, group ∈ nthreads binv dpow eval mfft r2fft poly
+//! (= evalod mulvan divvan pscal evop pmul spscal mveval mle) msm bmul norm bcheck mpair.
+//! Thread counts: quick 1,2,3,5,7,8,13,16,64 (expensive lines: 1,3,8,64); thorough 1..16,64.
 #![allow(dead_code, deprecated, clippy::all)]
 use ark_ec::pairing::Pairing;
 use ark_ec::{
